@@ -227,7 +227,7 @@ fn select_programs(ctx: &Ctx, uni: &Universe) -> Vec<Program> {
     }
     // one representative (the simplest) per feature signature from the enumerated space
     let k = ctx.tier.pick(2, 3);
-    let cfg = qgen::GenCfg { naming_devs: false, ..Default::default() };
+    let cfg = qgen::GenCfg { naming_devs: false, allow: Some(vec!["E", "C", "Po", "Poi", "Pf", "Px", "Pt", "Ae", "Fco", "Fcf", "Fct"]), ..Default::default() };
     let layers = qgen::enumerate(sm, &qgen::skeletons(), k.min(2), &cfg);
     let mut seen_sig = BTreeSet::new();
     for q in layers.iter().flatten() {
@@ -243,9 +243,22 @@ fn select_programs(ctx: &Ctx, uni: &Universe) -> Vec<Program> {
                 push(q, q.text(), "fan3", "signature-representative", full_bound, &mut out);
             }
         } else {
-            // every other enumerated query with at least one edge: one deviation fewer
+            // every other enumerated query with at least one edge: one deviation fewer. Parameter-value
+            // variants (the `req` edge, explicit nulls) do not change the shape of the iterator pipeline and
+            // are left to the signature representatives in the quick tier.
+            let text = q.text();
+            if ctx.tier == Tier::Quick && (text.contains("req(") || text.contains(": null")) {
+                continue;
+            }
             let dsn = if q.root == "Chains" { "chains" } else { "diamond" };
             push(q, q.text(), dsn, "enumerated", full_bound - 1, &mut out);
+        }
+    }
+    // every arrangement of three edges (plain / @optional / @fold / @recurse(2)), each with an output
+    {
+        let cfg_e3 = qgen::GenCfg { allow: Some(vec!["E"]), e_names: Some(vec!["next", "one"]), e_contents: vec![1], recurse_depths: vec![2], naming_devs: false, max_vertices: 4, ..Default::default() };
+        for q in qgen::enumerate(sm, &[qgen::skeleton()], 3, &cfg_e3).into_iter().skip(3).flatten() {
+            push(&q, q.text(), "diamond", "three-edge-structures", full_bound - 1, &mut out);
         }
     }
     // tag bookkeeping across scopes (needs two edges first): see qgen::tag_shapes
@@ -260,7 +273,15 @@ fn select_programs(ctx: &Ctx, uni: &Universe) -> Vec<Program> {
 
 pub fn run(ctx: &Ctx) -> ! {
     let uni = Universe::sverif();
-    let programs = select_programs(ctx, &uni);
+    let mut programs = select_programs(ctx, &uni);
+    // small, targeted corpora first; the bulk corpus last, so that a wall-clock cap can only cut the bulk
+    programs.sort_by_key(|p| match p.origin {
+        "handpicked" => 0,
+        "tag-shapes" => 1,
+        "three-edge-structures" => 2,
+        "signature-representative" => 3,
+        _ => 4,
+    });
     let bound = ctx.tier.pick(2usize, 3usize);
     let by_origin: Mutex<BTreeMap<String, (u64, u64)>> = Mutex::new(BTreeMap::new());
     let schedules = AtomicU64::new(0);
